@@ -24,5 +24,8 @@ for cid in props:
     os.environ.pop("VERIF_NO_FLOORS", None)
     names = checks.get(cid).floors("quick").keys() if not os.environ.get("VERIF_NO_FLOORS") else []
     cal[cid] = {k: int(mins.get(k, 0) * 0.4) for k in names}
+    for k, v in cal[cid].items():
+        if v < 12:
+            cal[cid][k] = max(1, v // 3)  # rare situations: keep the floor far below anything seen
     print(cid, cal[cid])
 json.dump(cal, open(path, "w"), indent=1, sort_keys=True)
